@@ -35,6 +35,7 @@ type Shared struct {
 	stringT  types.Type
 	Blocks   sync.Map // coverage: *ssa.BasicBlock -> struct{}
 	errorIface types.Type
+	jsonNumberT types.Type
 	harnessFn  sync.Map
 	Tier       int
 }
@@ -468,6 +469,9 @@ func (m *Machine) callSSA(caller *frame, callpos token.Pos, fn *ssa.Function, ar
 		}
 		if m.isForeign(fn) {
 			return m.callForeign(caller, callpos, fn, args)
+		}
+		if stub, ok := m.codecStub(fn); ok {
+			return stub(args)
 		}
 		if fn.Blocks == nil {
 			panic(pathEnd{kind: "unsupported", msg: "no code for function: " + fn.String()})
